@@ -38,6 +38,8 @@ structure Stored where
   version : Nat
   format : Format
   len : Nat
+  /-- the data region's length is not `header + k·size_of(T)` (stray bytes): raw formats refuse with `CorruptedRegion` -/
+  corrupt : Bool := false
 deriving DecidableEq, Repr, Inhabited
 
 inductive Outcome
@@ -45,6 +47,7 @@ inductive Outcome
   | fresh                     -- nothing was stored: a new empty vector
   | discarded                 -- the stored data was removed, an empty vector is returned
   | errVersion | errFormat    -- refused, data untouched
+  | errCorrupt                -- header matches but the region length is impossible: refused, data untouched
 deriving DecidableEq, Repr, Inhabited
 
 inductive VerifyErr | differentVersion | differentFormat
@@ -63,7 +66,7 @@ def importVec (stored : Option Stored) (e : Entry) (user : Nat) (f : Format) : O
   | none => (.fresh, some { version := v, format := f, len := 0 })
   | some s =>
     match verify s v f with
-    | .ok _ => (.kept s.len, some s)
+    | .ok _ => if s.corrupt && isRaw f then (.errCorrupt, some s) else (.kept s.len, some s)
     | .error err =>
       match e with
       | .plain => ((match err with | .differentVersion => .errVersion | .differentFormat => .errFormat), some s)
